@@ -136,6 +136,25 @@ def _fin(x):
 
 
 # ------------------------------------------------------------------- wrapper plumbing
+def _arg_digests(a, kw):
+    """sha1 of every writeable ndarray passed directly or inside a list/tuple argument."""
+    import hashlib
+    out = {}
+
+    def visit(key, v, depth=0):
+        if isinstance(v, np.ndarray):
+            if v.size <= 2_000_000:
+                out[key] = hashlib.sha1(np.ascontiguousarray(v).tobytes()).hexdigest()
+        elif isinstance(v, (list, tuple)) and depth == 0 and len(v) <= 64:
+            for i, w in enumerate(v):
+                visit(f"{key}[{i}]", w, 1)
+    for i, v in enumerate(a):
+        visit(f"arg{i}", v)
+    for k, v in kw.items():
+        visit(k, v)
+    return out
+
+
 def _monitored(name, judge):
     def make(orig):
         sig = inspect.signature(orig)
@@ -149,6 +168,7 @@ def _monitored(name, judge):
             try:
                 exc = None
                 out = None
+                before = _arg_digests(a, kw)
                 try:
                     out = orig(*a, **kw)
                 except BaseException as e:  # dclab's contour error derives from BaseException
@@ -156,6 +176,13 @@ def _monitored(name, judge):
                         raise
                     exc = e
                 st.ctx.count(f"calls[{name}]")
+                # a feature function must not change the data it is given: every law about
+                # "the same contour / image" presupposes that
+                after = _arg_digests(a, kw)
+                changed = [k for k in before if before[k] != after.get(k)]
+                st.ctx.check("inputs_unmodified", not changed,
+                             lambda: {"function": name, "changed_arguments": changed},
+                             message=f"{name} modified its input argument(s) {changed} in place")
                 try:
                     ba = sig.bind(*a, **kw)
                     ba.apply_defaults()
